@@ -135,6 +135,8 @@ def plan(tier, seed):
         step = max(1, len(subsets) // (16 if k >= 7 else 4))
         for s in range(0, len(subsets), step):
             shards.append(("sparse", k, s, min(len(subsets), s + step)))
+    for c in range(4):
+        shards.append(("scan", c, 4, tier))
     for shp, bd, T, b, stride in sched:
         if bd == "low7":
             perms = 5040
@@ -266,6 +268,93 @@ def _run_sparse(desc):
     return sh
 
 
+SCAN_FRAMES = [  # (cells of a 4x4 grid, value order) : sparse patterns with gaps, long ascents, several maxima, a single pixel, empty
+    ((0, 1, 2, 3, 7, 11, 15), (0, 1, 2, 3, 4, 5, 6)), ((0, 1, 2, 3, 7, 11, 15), (6, 5, 4, 3, 2, 1, 0)), ((0, 5, 10, 15), (3, 0, 2, 1)),
+    ((0, 2, 8, 10), (0, 1, 2, 3)), ((5,), (0,)), ((), ()), (tuple(range(16)), tuple((k * 7) % 16 for k in range(16))),
+    ((1, 2, 4, 7, 8, 11, 13, 14), (7, 0, 6, 1, 5, 2, 4, 3)), ((0, 1, 4, 5, 10, 11, 14, 15), (0, 3, 2, 1, 7, 4, 5, 6)),
+    ((3, 6, 9, 12), (0, 3, 1, 2))]
+
+
+def _run_scan(desc):
+    """SparseScan.lmlabel (the per-scan driver of the sparse labelling, work buffers shared by all frames of the scan) and the
+    sparse_localmax wrapper: every ordered triple of the ten catalogue frames (quick: a quarter) stored as an HDF5 scan; each frame's
+    labels are the steepest-ascent partition of THAT frame (of the smoothed signal when smoothing is on), numbered after the previous
+    frames' labels when countall is set"""
+    _, c, nch, tier = desc
+    import h5py, shutil
+    from ImageD11 import sparseframe as sf
+    sh = Shard()
+    wd = os.path.join(os.path.dirname(os.path.dirname(os.path.dirname(os.path.abspath(__file__)))), ".work", "c13_scan_%d" % os.getpid())
+    os.makedirs(wd, exist_ok=True)
+    fr = []
+    for cells, order in SCAN_FRAMES:
+        ii = np.array([q // 4 for q in cells], np.uint16); jj = np.array([q % 4 for q in cells], np.uint16)
+        fr.append((ii, jj, (10.0 * (np.array(order, np.float32) + 1)).astype(np.float32)))
+    try:
+        idx = 0
+        for trip in itertools.product(range(len(fr)), repeat=3):
+            idx += 1
+            if idx % nch != c or (tier == "quick" and (idx // nch) % 4 != 1):
+                continue
+            if all(len(fr[t][0]) == 0 for t in trip):
+                continue
+            fn = os.path.join(wd, "s.h5")
+            with h5py.File(fn, "w") as h:
+                g = h.create_group("1.1")
+                g.attrs["nframes"] = 3; g.attrs["shape0"] = 4; g.attrs["shape1"] = 4
+                g["row"] = np.concatenate([fr[t][0] for t in trip]).astype(np.uint16)
+                g["col"] = np.concatenate([fr[t][1] for t in trip]).astype(np.uint16)
+                g["intensity"] = np.concatenate([fr[t][2] for t in trip]).astype(np.float32)
+                g["nnz"] = np.array([len(fr[t][0]) for t in trip], np.int32)
+            for smooth in (False, True):
+                for countall in (True, False):
+                    ss = sf.SparseScan(fn, "1.1")
+                    ss.lmlabel(threshold=0, countall=countall, smooth=smooth)
+                    case = {"kind": "scan", "frames": list(trip), "smooth": smooth, "countall": countall}
+                    off = 0
+                    for k_, t in enumerate(trip):
+                        a, b = ss.ipt[k_], ss.ipt[k_ + 1]
+                        ii, jj = fr[t][0], fr[t][1]
+                        sig = np.asarray(ss.signal[a:b], np.float32)
+                        if smooth:
+                            # equal-valued neighbours in the smoothed signal are outside the property's domain
+                            pos = {(int(x), int(y)): q for q, (x, y) in enumerate(zip(ii, jj))}
+                            tie = any(pos.get((int(x) + dx, int(y) + dy)) is not None and sig[pos[(int(x) + dx, int(y) + dy)]] == sig[q]
+                                      for q, (x, y) in enumerate(zip(ii, jj)) for dx, dy in NB8)
+                            if tie:
+                                sh.borderline += 1
+                                off += int(ss.nlabels[k_]) if countall else 0
+                                continue
+                        want, n_want = sparse_oracle(ii, jj, sig)
+                        lab = np.asarray(ss.labels[a:b])
+                        if int(ss.nlabels[k_]) != n_want:
+                            sh.violation("SparseScan.lmlabel:count", dict(case, frame=k_), {"nlabels": int(ss.nlabels[k_]), "expected": n_want}); break
+                        if len(lab) and (not np.array_equal(O.canon_labels(lab), O.canon_labels(want)) or lab.min() != off + 1 or lab.max() != off + n_want):
+                            sh.violation("SparseScan.lmlabel:partition-or-label-range", dict(case, frame=k_), {"labels": lab, "expected": want, "offset": off}); break
+                        if countall:
+                            off += n_want
+                    else:
+                        if int(ss.total_labels) != int(np.sum(ss.nlabels)):
+                            sh.violation("SparseScan.lmlabel:total", case, {})
+                    sh.evaluations += 1
+                    sh.nontrivial += 1
+            # the frame-level wrapper
+            for t in set(trip):
+                ii, jj, v = fr[t]
+                if len(ii) == 0:
+                    continue
+                f = sf.sparse_frame(ii.copy(), jj.copy(), (4, 4), pixels={"intensity": v.copy()})
+                nl = sf.sparse_localmax(f)
+                want, n_want = sparse_oracle(ii, jj, v)
+                if nl != n_want or not np.array_equal(O.canon_labels(f.pixels["localmax"]), O.canon_labels(want)):
+                    sh.violation("sparse_localmax:wrapper", {"kind": "scan", "frames": [t, t, t], "smooth": False, "countall": False}, {"labels": f.pixels["localmax"]})
+        sh.sample(case, limit=1)
+        sh.outcomes.add("scan")
+    finally:
+        shutil.rmtree(wd, ignore_errors=True)
+    return sh
+
+
 # ------------------------------------------------------------------------------------------ (b)
 def _same_partition(lab, want):
     return np.array_equal(lab == 0, want == 0) and np.array_equal(O.canon_labels(lab), O.canon_labels(want))
@@ -383,6 +472,8 @@ def run_shard(desc):
         return _run_dense(desc)
     if desc[0] == "sparse":
         return _run_sparse(desc)
+    if desc[0] == "scan":
+        return _run_scan(desc)
     return _run_sched(desc)
 
 
@@ -401,6 +492,10 @@ def replay(case):
     if case["kind"] == "sparse":
         _sparse_case(sh, cI, case["cells"], case["perm"])
         return (not sh.violations), {"violations": sh.violations}
+    if case["kind"] == "scan":
+        r = _run_scan(("scan", 0, 1, "thorough"))
+        v = [x for x in r.violations if x["case"]["frames"] == case["frames"]]
+        return (not v), {"violations": v[:3]}
     shp = tuple(case["shape"])
     im = _frame_for(shp, case["border"], case["perm"])
     want, n_want, _ = dense_oracle(im)
